@@ -527,7 +527,14 @@ func (fr *Frame) encodeSortSlice(x *ssa.Call) {
 	}
 	fr.reach = save
 	// closure effects: the comparator must not write anything (checked in its own VC: modifies nothing is the default)
-	for m, srt := range fr.e.p.modset(cfn) {
+	cmods := fr.e.p.modset(cfn)
+	var cmodNames []string
+	for m := range cmods {
+		cmodNames = append(cmodNames, m)
+	}
+	sort.Strings(cmodNames) // deterministic script text
+	for _, m := range cmodNames {
+		srt := cmods[m]
 		if strings.HasPrefix(m, "N") {
 			old := fr.getMem(m, "Int")
 			c := vc.fresh(m+"@sortc", "Int")
